@@ -1,6 +1,7 @@
 package main
 
 import (
+	"github.com/resonatehq/resonate/internal/verifh/vh"
 	"fmt"
 
 	"github.com/resonatehq/resonate/pkg/promise"
@@ -28,6 +29,15 @@ func init() {
 				pol.Class = pick(r, "fifo", "dst", "dst")
 				pol.PDefer = 0
 				pol.OnePerTick = false
+			}
+			// decided apart from the scenario's own random stream (so that adding it changed no other scenario)
+			if vh.Mix(c.Seed, "c05.regrace.late", c.Idx)%3 == 0 {
+				// store errors in the middle of a request: a submission of a request that has already committed one fails
+				// (the confirming re-read after a guarded insert that found the promise completed, for one)
+				pol.PLate = 0.5
+				if pol.FailBudget < 8 {
+					pol.FailBudget = 8
+				}
 			}
 			s := c.NewSim(cfg, pol)
 			s.now = T0
